@@ -3,7 +3,9 @@
    top of this by the row model. *)
 From Coq Require Import ZArith List Bool Lia.
 From JL.std Require Import GoBase GoStrconv GoJsonNum GoJson GoJsonStrict GoJsonMarshal.
-From JL.proofs Require Import JsonParseS JsonProofs.
+From JL.std Require Import GoVal.
+From JL.model Require Import Row Template TemplateJson.
+From JL.proofs Require Import JsonParseS JsonProofs RowSafe AcceptIff.
 Import ListNotations.
 Open Scope Z_scope.
 
@@ -41,3 +43,68 @@ Theorem C16_truncated_rejects :
   forall b m n, spells b (JObj m) -> (n < length (skip_trailing_ws b))%nat -> snd (parse_top (firstn n b)) = false.
 Proof. exact truncated_rejects. Qed.
 Print Assumptions C16_truncated_rejects.
+
+(* ---- importer.GetRow (JL.model.Template.get_row over the GoJson reader) ---- *)
+
+(* a row is returned only for a line row.UnmarshalJSON accepts; without U+FFFD repair such a line
+   is exactly one JSON object *)
+Theorem C16_template_accept_sound :
+  forall (O : oracles) n ti line row,
+    get_row O parse_top_rv n ti line = Ok row ->
+    snd (parse_top line) = true /\ (no_substitution line -> is_json_object line = true).
+Proof.
+  intros O n ti line row H. split; [eapply get_row_accepts; eauto | intros Hns; eapply accept_sound; eauto].
+Qed.
+Print Assumptions C16_template_accept_sound.
+
+(* one JSON object is accepted, unless the import of a member into the cell stored under its key
+   (a declared column) fails: then that error is returned and no row. Stated for every fuel, for
+   the outcomes other than Fuel; Panic is excluded for a well-formed template *)
+Theorem C16_template_accept_complete :
+  forall (O : oracles) n ti line,
+    wf_crow ti -> is_json_object line = true ->
+    get_row O parse_top_rv n ti line = Fuel
+    \/ (exists row, get_row O parse_top_rv n ti line = Ok row)
+    \/ (exists e r0 r', clone_row O n ti = Ok r0
+                        /\ unmarshal_members O n (line_members line) r0 = (r', Err e)
+                        /\ get_row O parse_top_rv n ti line = Err e).
+Proof. exact accept_complete. Qed.
+Print Assumptions C16_template_accept_complete.
+
+(* the same without the Fuel alternative: fuel that lets CreateRowEmpty clone the template is enough *)
+Theorem C16_template_accept_complete_fueled :
+  forall (O : oracles) n ti line,
+    wf_crow ti -> clone_row O (S n) ti <> Fuel -> is_json_object line = true ->
+    (exists row, get_row O parse_top_rv (S n) ti line = Ok row)
+    \/ (exists e r0 r', clone_row O (S n) ti = Ok r0
+                        /\ unmarshal_members O (S n) (line_members line) r0 = (r', Err e)
+                        /\ get_row O parse_top_rv (S n) ti line = Err e).
+Proof. exact accept_complete_fueled. Qed.
+Print Assumptions C16_template_accept_complete_fueled.
+
+(* the failing member, exhibited *)
+Theorem C16_template_reject_member :
+  forall (O : oracles) n ti line,
+    wf_crow ti -> is_json_object line = true ->
+    get_row O parse_top_rv n ti line = Fuel
+    \/ (exists row, get_row O parse_top_rv n ti line = Ok row)
+    \/ (exists e k v c c', In (k, v) (line_members line) /\ cell_import O n c v = (c', Err e)
+                           /\ get_row O parse_top_rv n ti line = Err e).
+Proof. exact accept_complete_member. Qed.
+Print Assumptions C16_template_reject_member.
+
+(* a failing GetRow returns no row (by its type) and the pipeline writes nothing for the line *)
+Theorem C16_no_partial :
+  forall (O : oracles) (jfloat : bool -> Z -> option str) (jother : Z -> option str) n ti to line,
+    (forall row, get_row O parse_top_rv n ti line <> Ok row) ->
+    pipeline O encode_string parse_top_rv jfloat jother n ti to line
+    = match get_row O parse_top_rv n ti line with Ok _ => Fuel | Err e => Err e | Panic => Panic | Fuel => Fuel end
+    /\ forall out, pipeline O encode_string parse_top_rv jfloat jother n ti to line <> Ok out.
+Proof. intros O jfloat jother. exact (no_partial O jfloat jother). Qed.
+Print Assumptions C16_no_partial.
+
+Theorem C16_reject_no_row :
+  forall (O : oracles) n ti line,
+    snd (parse_top line) = false -> forall row, get_row O parse_top_rv n ti line <> Ok row.
+Proof. exact reject_no_row. Qed.
+Print Assumptions C16_reject_no_row.
